@@ -54,6 +54,50 @@ def build_elf(machine, cls, msb, segs, tail=0xCC):
     return blob, desc
 
 
+def build_dyn_elf(cls, nsyms, relsyms, rela=False):
+    """a dynamically linked x86 / x86-64 executable: PT_INTERP, one PT_LOAD holding a table of pointer-sized slots,
+    .dynsym with nsyms symbols (sym000..), .dynstr, a REL(A) section binding slot k to symbol relsyms[k].
+    returns (bytes, load (vaddr, offset, filesz, memsz), entry, {slot address: symbol name})"""
+    import struct
+    order = "<"
+    machine = 3 if cls == 32 else 62
+    psz = cls // 8
+    base = 0x08049000 if cls == 32 else 0x601000
+    dynstr = b"\0"
+    symb = b"\0" * struct.calcsize(order + EI.SYM[cls][0])
+    names = []
+    for k in range(1, nsyms):
+        nm = "sym%03d" % k
+        names.append(nm)
+        st_name = len(dynstr)
+        dynstr += nm.encode() + b"\0"
+        symb += EI.pack(order, EI.SYM[cls][0], EI.SYM[cls][1], dict(st_name=st_name, st_value=0, st_size=0, st_info=0x12, st_other=0, st_shndx=0))
+    rel = b""
+    slots = {}
+    for j, k in enumerate(relsyms):
+        off = base + 0x40 + psz * j
+        if cls == 32:
+            info = (k << 8) | 7
+            rel += struct.pack("<II", off, info) + (struct.pack("<i", 0) if rela else b"")
+        else:
+            info = (k << 32) | 7
+            rel += struct.pack("<QQ", off, info) + (struct.pack("<q", 0) if rela else b"")
+        slots[off] = "sym%03d" % k
+    dyn = struct.pack("<II" if cls == 32 else "<QQ", 0, 0)
+    segs = [dict(type=3, flags=4, vaddr=base - 0x100, data=b"/lib/ld-linux.so.2\0", memsz=19, align=1),
+            dict(type=EI.PT_LOAD, flags=6, vaddr=base, data=fill(0x200, 7), memsz=0x200, align=0x1000),
+            dict(type=2, flags=6, vaddr=base + 0x1000, data=dyn, memsz=len(dyn), align=psz)]
+    relsz = len(rel) // len(relsyms)
+    secs = [dict(name=".dynsym", type=EI.SHT_DYNSYM, flags=2, addr=0, data=symb, link=2, info=1, addralign=psz, entsize=struct.calcsize(order + EI.SYM[cls][0])),
+            dict(name=".dynstr", type=EI.SHT_STRTAB, flags=2, addr=0, data=dynstr, link=0, info=0, addralign=1, entsize=0),
+            dict(name=".rela.plt" if rela else ".rel.plt", type=EI.SHT_RELA if rela else EI.SHT_REL, flags=2, addr=0, data=rel, link=1, info=0, addralign=psz, entsize=relsz),
+            dict(name=".dynamic", type=EI.SHT_DYNAMIC, flags=3, addr=base + 0x1000, data=dyn, link=2, info=0, addralign=psz, entsize=len(dyn))]
+    b = EI.Builder(cls, False, machine=machine)
+    blob, desc = b.build(segs, secs, [], base + 4, "ph-first", 0, True)
+    g = desc["phdrs"][1]
+    return blob, (g["p_vaddr"], g["p_offset"], g["p_filesz"], g["p_memsz"]), base + 4, slots
+
+
 def flat(parts):
     out = []
     for p in parts:
@@ -187,6 +231,24 @@ def other_unit(kind):
                         F(("pe", lab.split("/")[0], what), "%s: %s" % (lab, detail), cdesc)
                 except Exception as ex:
                     F(("pe", lab.split("/")[0], "load-exc:%s@%s" % exc_sig(ex)), "%s: load_program raised %r" % (lab, ex), cdesc)
+    elif kind == "dynelf":
+        for cls in (32, 64):
+            for rela in ((False, True) if cls == 32 else (True,)):
+                for nsyms, relsyms in ((4, [1, 2, 3]), (320, [1, 255, 256, 257, 300, 319]), (70000 if cls == 64 else 600, [1, 511, 512, 599])):
+                    lab = "ELF%d/%s/%dsyms" % (cls, "rela" if rela else "rel", nsyms)
+                    cdesc = {"kind": "dynelf", "label": lab}
+                    n += 1
+                    try:
+                        blob, load, entry, slots = build_dyn_elf(cls, nsyms, relsyms, rela)
+                        task = amoco.load_program(blob)
+                        if task is None:
+                            F(("dynelf", "no-task"), "%s: load_program returned None" % lab, cdesc)
+                            continue
+                        sl = dict((a, (cls // 8, nm)) for a, nm in slots.items())
+                        for what, detail in check_image(task, blob, [load], entry, lab, cdesc, check_fetch=False, slots=sl):
+                            F(("dynelf", "ELF%d" % cls, what), "%s: %s" % (lab, detail), cdesc)
+                    except Exception as ex:
+                        F(("dynelf", "load-exc:%s@%s" % exc_sig(ex)), "%s: load_program raised %r" % (lab, ex), cdesc)
     elif kind == "macho":
         for ns in (1, 2):
             blob, d = c14.macho_build(True, ns, 1)
@@ -228,6 +290,20 @@ def other_unit(kind):
                 pc = task.state(cpu_x86.eip)
                 if not (hasattr(pc, "v") and pc.v == entry):
                     F(("records", lab, "entry"), "%s: program counter %s, start record says %#x" % (lab, pc, entry), cdesc)
+                # relocation of a raw image (twice: from 0 and from a non-zero base): the image follows, pc = new base
+                if hasattr(task, "relocate"):
+                    lowest = min(va for va, _, _ in loads)
+                    for newbase in (0x1000, 0x4000):
+                        task.relocate(newbase)
+                        for va, _, data in loads:
+                            got = flat(task.state.mmap.read(newbase + (va - lowest), len(data)))
+                            if got != list(data):
+                                F(("records", lab, "relocate-content"), "%s: after relocate(%#x) the bytes recorded at %#x are not at %#x (read %r...)" % (
+                                    lab, newbase, va, newbase + (va - lowest), got[:6]), cdesc)
+                                break
+                        pc = task.state(cpu_x86.eip)
+                        if not (hasattr(pc, "v") and pc.v == newbase):
+                            F(("records", lab, "relocate-entry"), "%s: after relocate(%#x) the program counter is %s" % (lab, newbase, pc), cdesc)
             except Exception as ex:
                 F(("records", lab, "load-exc:%s@%s" % exc_sig(ex)), "%s: load_program raised %r" % (lab, ex), cdesc)
     elif kind == "samples":
@@ -268,7 +344,7 @@ def other_unit(kind):
 def run(tier, seed):
     rep = Report("C15", "model_checking")
     jobs = [("elf", (name, m, cls, msb, tier)) for (name, m, cls, msb) in MACHINES]
-    jobs += [("other", k) for k in ("pe", "macho", "records", "samples")]
+    jobs += [("other", k) for k in ("pe", "dynelf", "macho", "records", "samples")]
     jobs = core.rotate(jobs, seed)
     res = core.pmap(_dispatch, jobs, chunksize=1)
     n = 0
@@ -306,5 +382,5 @@ def replay(case):
         fl, _ = elf_unit(m + ("thorough",))
         return [Failure.from_json(f) for f in fl if Failure.from_json(f).case.get("geometry") == case["geometry"]
                 and Failure.from_json(f).case.get("pagesize") == case["pagesize"]]
-    fl, _ = other_unit({"pe": "pe", "macho": "macho", "records": "records", "sample": "samples"}[k])
+    fl, _ = other_unit({"pe": "pe", "dynelf": "dynelf", "macho": "macho", "records": "records", "sample": "samples"}[k])
     return [Failure.from_json(f) for f in fl]
